@@ -197,3 +197,43 @@ QUICK = [
     "overlaps_symmetric_and_touching", "before_relations", "hull_contains_commutes_idempotent", "hull_associative",
     "code_origin_add_slice", "code_origin_get_raw",
 ]
+
+
+def code_origin_add_slice_wide(text: str, a: int, b: int, c: int, d: int) -> bool:
+    """
+    pre: len(text) <= 5
+    pre: 0 <= a <= b <= 6 and 0 <= c <= d <= 6
+    post: _
+    """
+    return code_origin_add_slice.__wrapped__(text, a, b, c, d) if hasattr(code_origin_add_slice, "__wrapped__") else _slice_law(text, a, b, c, d)
+
+
+def _slice_law(text: str, a: int, b: int, c: int, d: int) -> bool:
+    Source.clear_registry()
+    src = MemoryTextSource(_raw=text, source_uri="s")
+    o1 = CodeOrigin(src, _rng(a, b, 80))
+    o2 = CodeOrigin(src, _rng(c, d, 80))
+    r = o1 + o2
+    if c <= b and a <= d:
+        lo, hi = min(a, c), max(b, d)
+        return type(r) is CodeOrigin and r.source is src and r.position.start.index == lo and r.position.end.index == hi and r.get_raw() == text[lo:hi]
+    return type(r) is MultiOrigin and list(r.origins) == [o1, o2] and r.origins[0] is o1 and r.origins[1] is o2 and r.source is src
+
+
+def range_relations_with_equal_and_empty_ranges(a: int, b: int, w: int) -> bool:
+    """
+    pre: 0 <= a <= b and w >= 1
+    post: _
+    """
+    # boundary cases: a range against itself, against its own empty start / end range
+    r = _rng(a, b, w)
+    s, t = _rng(a, a, w), _rng(b, b, w)
+    return (
+        r.overlaps(r) and (r in r) and not (r < r) and ((r <= r) == (a == b))
+        and (s in r) and (t in r) and r.overlaps(s) and s.overlaps(r) and r.overlaps(t) and t.overlaps(r)
+        and (s <= r) and (r <= t) and ((s < r) == False) and ((r < t) == False)  # noqa: E712
+        and (r + s) == r and (t + r) == r
+    )
+
+
+THOROUGH = QUICK + ["code_origin_add_slice_wide", "range_relations_with_equal_and_empty_ranges"]
